@@ -111,11 +111,12 @@ Qed.
 Ltac refls := rewrite ?Nat.eqb_refl, ?cfgv_eqb_refl, ?carg_eqb_refl, ?err_eqb_refl, ?Nat.leb_refl.
 
 Ltac crunch :=
-  cbv -[Nat.eqb Nat.leb cfgv_eqb carg_eqb err_eqb conf_eqb o_ffail ctor_fails prod_fails o_fill o_dflt].
+  cbv -[Nat.eqb Nat.leb cfgv_eqb carg_eqb err_eqb conf_eqb o_ffail ctor_fails prod_fails o_fill o_dflt same_type_name].
 
 Ltac oracle_split :=
   match goal with
   | |- context [o_ffail ?o ?n] => destruct (o_ffail o n) eqn:?
+  | |- context [same_type_name ?a ?b] => destruct (same_type_name a b) eqn:?
   | |- context [ctor_fails ?sh ?o ?n] =>
       let b := eval cbv [sh_cerr] in (sh_cerr sh) in
       match b with
@@ -134,6 +135,7 @@ Ltac oracle_split :=
 Ltac use_known :=
   repeat match goal with
          | H : o_ffail ?o ?n = _ |- context [o_ffail ?o ?n] => rewrite H
+         | H : same_type_name ?a ?b = _ |- context [same_type_name ?a ?b] => rewrite H
          | H : ctor_fails ?sh ?o ?n = _ |- context [ctor_fails ?sh ?o ?n] => rewrite H
          | H : prod_fails ?sh ?o ?n = _ |- context [prod_fails ?sh ?o ?n] => rewrite H
          end.
@@ -169,7 +171,7 @@ Lemma new_step_facts sh hf o s :
   step_facts sh hf hf o true (match sh_ret sh with RFactory => true | RPlugin => false end) s (step_new sh hf o s).
 Proof.
   destruct s as [a d f c p].
-  destruct sh as [[] [] cerr perr [] rt]; destruct hf;
+  destruct sh as [[] [] cerr perr [] rt nm]; destruct hf;
     unfold step_facts; norm; ranges.
 Qed.
 
@@ -197,8 +199,8 @@ Definition creation_facts (sh : shape) (hf : bool) (o : oracle) (cev : list even
       round_counts sh hf o cev = true /\ one_id cev = true /\ Nat.eqb (count_ev is_prod cev) 0 = true
   end.
 
-Definition factory_facts_stmt sh we hf o s0 s : Prop :=
-  match reg_new_factory sh we hf o s0 with
+Definition factory_facts_stmt sh we named hf o s0 s : Prop :=
+  match reg_new_factory sh we named hf o s0 with
   | (_, cev, cr) =>
       creation_facts sh hf o cev cr /\
       match cr with
@@ -211,22 +213,22 @@ Definition factory_facts_stmt sh we hf o s0 s : Prop :=
       end
   end.
 
-Lemma factory_facts_plugin cfg cerr perr def rt we hf o s0 s :
-  factory_facts_stmt (mkShape RPlugin cfg cerr perr def rt) we hf o s0 s.
+Lemma factory_facts_plugin cfg cerr perr def rt nm we named hf o s0 s :
+  factory_facts_stmt (mkShape RPlugin cfg cerr perr def rt nm) we named hf o s0 s.
 Proof.
   destruct s0 as [a0 d0 f0 c0 p0]. destruct s as [a d f c p].
   destruct cfg, cerr, def, rt, hf, we;
     unfold factory_facts_stmt, creation_facts, step_facts, fcall_facts; norm; ranges.
 Qed.
 
-Lemma factory_facts_factory cfg cerr perr def rt we hf o s0 s :
-  factory_facts_stmt (mkShape RFactory cfg cerr perr def rt) we hf o s0 s.
+Lemma factory_facts_factory cfg cerr perr def rt nm we named hf o s0 s :
+  factory_facts_stmt (mkShape RFactory cfg cerr perr def rt nm) we named hf o s0 s.
 Proof.
   destruct s0 as [a0 d0 f0 c0 p0]. destruct s as [a d f c p].
   destruct cfg, perr, def, rt, hf, we;
     unfold factory_facts_stmt, creation_facts, step_facts, fcall_facts; norm; ranges.
 Qed.
 
-Lemma factory_facts sh we hf o s0 s : factory_facts_stmt sh we hf o s0 s.
-Proof. destruct sh as [[] cfg cerr perr def rt]; [apply factory_facts_plugin|apply factory_facts_factory]. Qed.
+Lemma factory_facts sh we named hf o s0 s : factory_facts_stmt sh we named hf o s0 s.
+Proof. destruct sh as [[] cfg cerr perr def rt nm]; [apply factory_facts_plugin|apply factory_facts_factory]. Qed.
 
